@@ -451,10 +451,10 @@ func sizeBucket(n int) string {
 // ---------------------------------------------------------------------------------------------
 
 func Run(c *core.Ctx) {
-	c.Rule = "stream: message sequences (calls/notifications/responses, numeric and string ids, multi-byte and CRLFCRLF / Content-Length text inside) written by the real stream.Write and read by the real stream.Read under every chunking of a chunk grammar; raw payload sequences framed by the model; malformed and truncated header blocks; sequences of Writes (bodies from a size ladder up to ~130 KiB) over a connection that can fail at any Write after taking any part of it, with the writer's context cancelled before the Write or at the start / end of the k-th Write call made on the connection; conn: concurrent callers/notifiers/repliers against a scripted peer. distinct non-trivial = distinct byte streams with at least one frame or a header-level error, and distinct connection histories"
+	c.Rule = "stream: message sequences (calls/notifications/responses, numeric and string ids, multi-byte and CRLFCRLF / Content-Length text inside) written by the real stream.Write and read by the real stream.Read under every chunking of a chunk grammar; raw payload sequences framed by the model; malformed and truncated header blocks; sequences of Writes (bodies from a size ladder up to ~130 KiB) over a connection that can fail at any Write after taking any part of it, with the writer's context cancelled before the Write or at the start / end of the k-th Write call made on the connection; conn: concurrent callers/notifiers/repliers against a scripted peer; hang-up histories: 1-4 concurrent calls (+0-2 started after the end) against a peer that ends the stream before answering / back to back with an answer (the delivering Write held until the read loop has ended, or not) / inside a response frame / after the answered call returned, earlier calls answered at once, late, never or in a batch right before the end; sweep of the small scripts, then random. distinct non-trivial = distinct byte streams with at least one frame or a header-level error, and distinct connection histories"
 	c.Trusted = append(c.Trusted,
 		"extraction: ExtrOcamlBasic only; ocaml/driver.ml; coq/extract/X18.v decodes schedules and prints states (glue, not verified)",
-		"Go harness internal/c18 (generators, chunking reader, scripted peer, the scripted failing connection and the connection tap that cancel a context from inside a Write call, the construction of a model schedule from an observed history or from a write script) and the Go toolchain incl. the race detector",
+		"Go harness internal/c18 (generators, chunking reader, scripted peer, the scripted failing connection, the scripted peer that hangs up and the connection tap that cancel a context from inside a Write call, the construction of a model schedule from an observed history or from a write script) and the Go toolchain incl. the race detector",
 		"encoding/json (message codec) and bufio.Reader (chunking independence) are libraries: exercised, not modelled")
 	c.Assume = append(c.Assume,
 		"sync.Mutex, channels, atomic.AddInt32 and goroutines behave as the interleaving semantics of model/Rpc.v says; fewer than 2^31 calls per connection",
